@@ -4,6 +4,7 @@ package c02
 import (
 	"bytes"
 	"encoding/json"
+	"errors"
 	"fmt"
 	"golang.org/x/crypto/chacha20poly1305"
 	"io"
@@ -323,6 +324,36 @@ func byteLevel(run *vk.Run, seed int64) {
 			f := append(append([]byte{}, file...), make([]byte, t)...)
 			judge(f, pt, fmt.Sprintf("trailing:n=%d", n), fmt.Sprintf("%d trailing bytes after a %d-byte plaintext", t, n), SourceKinds, []string{"readall", "copy", "copyplain", "buf65536"})
 			run.Distinct(fmt.Sprintf("trailing:%d:%d", n, t))
+			// ... and behind a source failure: the source answers the read that follows the final chunk with an
+			// error of its own (for good, or once) instead of the trailing bytes. Whatever the reader makes of that
+			// error, the extended file must not reach a clean end of stream.
+			for _, once := range []bool{false, true} {
+				for _, pol := range []string{"readall", "copy", "buf65536", "buf1"} {
+					if pol == "buf1" && n > 65537 {
+						continue
+					}
+					src := &strm.Scripted{B: f, FailAt: int64(len(file)), Once: once, Err: errors.New("injected source failure behind the final chunk")}
+					var res strm.Result
+					if r, err := age.Decrypt(src, id); err != nil {
+						res = strm.Result{Err: err}
+					} else {
+						res = strm.Drain(r, pol)
+					}
+					run.Eval(1)
+					sig := fmt.Sprintf("trailing-behind-failure:n=%d", n)
+					rp := map[string]interface{}{"check": "C02.bytes", "what": "trailing bytes behind a failing read", "n": n, "trailing": t, "once": once, "read": pol}
+					if res.Panic != nil {
+						run.Violation("C02:panic:"+sig, fmt.Sprint(res.Panic), rp)
+					} else if len(res.Data) > len(pt) || !bytes.Equal(res.Data, pt[:len(res.Data)]) {
+						run.Violation("C02:released-not-prefix:"+sig, "released bytes are not a prefix of the plaintext", rp)
+					} else if res.Err == io.EOF {
+						run.Violation("C02:clean-eof-on-altered-payload:"+sig, fmt.Sprintf("%d trailing bytes after a %d-byte plaintext, the source failing (once=%v) on the read behind the final chunk (read=%s): clean end of stream", t, n, once, pol), rp)
+					} else if res.AfterErr != "" {
+						run.Violation("C02:not-sticky:"+sig, res.AfterErr, rp)
+					}
+				}
+			}
+			run.Distinct(fmt.Sprintf("trailing-behind-failure:%d:%d", n, t))
 		}
 	}
 	emptyFinalAfterFull(run, rng)
